@@ -219,19 +219,39 @@ class C14(Prop):
         return [sides, beh]
 
     def gen(self, rng, tier):
-        clean = rng.random() < 0.6
+        mode = rng.random()
+        clean = mode < 0.7
         T = rng.choice([0, 1, 2, 3, 4, 5, 6, 7, 9])
         ms = lambda: [[self.gen_stage(rng, clean, T) for _ in range(rng.choice([0, 0, 1, 1, 2]))], self.gen_stage(rng, clean, T)]
         prog = [ms(), ms(), ms()]
         total = sum(s[1][1] for m in prog for s in [m[1]] + m[0] if isinstance(s[1], list) and s[1][0] in ('fire', 'faild'))
         k = rng.random()
-        if k < 0.35:
+        if k < 0.3:
             T = rng.choice([total, total, total + 1, max(total - 1, 0)])     # ties with the timeout
         elif clean or k < 0.6:
             T = total + rng.choice([1, 2, 3])
         ns = rng.choice([0, 0, 0, 0, 1] if clean else [0, 0, 1, 1, 2])
         stops = [rng.choice([total, total, total + 1, T, T + 1, 9] if clean else [0, 1, 2, 3, total, total, T, max(T - 1, 0), T + 1, 9])
                  for _ in range(ns)]
+        if 0.35 <= mode < 0.7:
+            # an otherwise clean program with exactly one flaw
+            stages = [s for m in prog for s in [m[1]] + m[0]]
+            st = rng.choice(stages)
+            flaw = rng.choice(['logerr', 'dropfailed', 'expect', 'junk', 'raise', 'faild', 'never', 'stop', 'logerr-flush-logerr'])
+            if flaw in ('logerr', 'dropfailed', 'expect'):
+                st[0].append(flaw)
+            elif flaw == 'logerr-flush-logerr':
+                st[0].extend(['logerr', 'flush', 'logerr'])
+            elif flaw == 'junk':
+                st[0].append(['junk', rng.choice([total + 1, T, T + 1, 9])])
+            elif flaw == 'raise':
+                st[1] = ['raise', rng.choice(EXC)]
+            elif flaw == 'faild':
+                st[1] = ['faild', rng.choice([0, 1, 2]), rng.choice(EXC)]
+            elif flaw == 'never':
+                st[1] = 'never'
+            else:
+                stops = stops + [rng.choice([0, max(total - 1, 0), total, total + 1])]
         return [T, stops, rng.random() < 0.3, rng.random() < 0.7, rng.random() < 0.7, rng.choice([0, 1, 2])] + prog
 
     BEHS = ['ret', ['raise', 'err'], ['raise', 'skip'], ['fire', 2], ['fire', 0], ['faild', 2, 'err'], 'never']
